@@ -637,12 +637,25 @@ func runC17(c *Ctx) {
 		nextEvent++
 		fam := []live{{t0, t0.RevocationIds(), []int{nextEvent}}}
 		identical := false
-		steps := 2 + r.Intn(8)
+		steps := 2 + r.Intn(11)
+		forkAgain := -1
 		for s := 0; s < steps; s++ {
-			p := Pick(r, fam)
+			// grow chains (the newest token is the usual parent) and fork: a second derivation
+			// from the parent that was just extended, at every depth
+			pi := len(fam) - 1
+			if forkAgain >= 0 {
+				pi, forkAgain = forkAgain, -1
+			} else if r.Chance(1, 3) {
+				pi = r.Intn(len(fam))
+			}
+			p := fam[pi]
 			var child *biscuit.Biscuit
 			op := ""
-			switch r.Intn(5) {
+			kind := r.Intn(5)
+			if kind <= 2 && r.Chance(1, 2) {
+				forkAgain = pi
+			}
+			switch kind {
 			case 0, 1, 2:
 				bb := p.tok.CreateBlock()
 				if r.Chance(2, 3) {
@@ -693,6 +706,14 @@ func runC17(c *Ctx) {
 				c.Violate("C17/parent-changed", "a derivation changed the parent's revocation ids", map[string]interface{}{"op": op})
 			}
 			fam = append(fam, live{child, ids, ev})
+			// stability: what every live token reports must be what it reported when it was made
+			for li, l := range fam {
+				if now := l.tok.RevocationIds(); hexList(now) != hexList(l.ids) {
+					c.Violate("C17/ids-changed", fmt.Sprintf("operation %s on another token changed the revocation ids reported by live token %d", op, li),
+						map[string]interface{}{"op": op, "before": hexList(l.ids), "after": hexList(now)})
+					fam[li].ids = now
+				}
+			}
 		}
 		for _, l := range fam {
 			for k, id := range l.ids {
